@@ -25,7 +25,7 @@ P == INSTANCE PDFTextEnc WITH PadFix <- TRUE
 A == INSTANCE AztecHLEnc WITH BSFix <- TRUE
 C == INSTANCE Code128Enc
 D == INSTANCE DMEnc
-Q == INSTANCE QREnc
+Q == INSTANCE QREnc WITH SignFix <- TRUE
 PD == INSTANCE PDFDims
 S == INSTANCE AztecSel WITH ExactFitOK <- TRUE
 
